@@ -61,25 +61,35 @@ RoundTripOK ==
   /\ E.perr = ""
   /\ E.after = E.before
   /\ FormatsKept(E.before, E.bfmt, E.afmt)
+  /\ Dense(E.bci) /\ Dense(E.aci)
 
 MeanOK ==
   /\ E.mid \in 1..Len(Descs)
   /\ E.text = Render(Descs[E.mid]) /\ E.font = MeaningFont
-  /\ E.ppanic = "" /\ E.returned /\ E.leaks = 0 /\ E.perr = ""
-  /\ E.got = Meaning(Descs[E.mid])
+  /\ E.ppanic = "" /\ E.returned /\ E.leaks = 0
+  /\ IF MayFail(Descs[E.mid]) /\ E.perr # "" THEN TRUE
+     ELSE E.perr = "" /\ E.got = Meaning(Descs[E.mid]) /\ Dense(E.gci)
 
 NumOK  == /\ E.ppanic = "" /\ E.returned /\ E.leaks = 0
           /\ E.nk \in NumKinds /\ E.nl \in 1..Len(Lits) /\ E.text = NumText(E.nk, E.nl) /\ E.font = MeaningFont
-          /\ NumLaw(E.nk, E.nl, E.perr, E.got)
+          /\ NumLaw(E.nk, E.nl, E.perr, E.got) /\ Dense(E.gci)
 ErrLineOK == /\ E.ppanic = "" /\ E.returned /\ E.leaks = 0
              /\ E.text = ErrText(E.et, E.ep, E.ex) /\ E.font = MeaningFont
              /\ ErrLaw(E.et, E.ep, E.ex, E.perr # "", E.line, E.item)
+
+\* a text the parser accepts denotes a lookup list the language can express: describing that list and
+\* parsing the description gives the same list again (same formats, dense coverage tables)
+ReparseOK == /\ E.xpanic = "" /\ E.ppanic = "" /\ E.returned /\ E.leaks = 0
+             /\ Dense(E.ci1)
+             /\ E.perr2 = ""
+             /\ E.l2 = E.l1 /\ E.f2 = E.f1 /\ Dense(E.ci2)
 
 EventOK == CASE E.ev = "parse" -> IF E.pre = "ok" THEN ParseOK ELSE EarlyOK
              [] E.ev = "rt"    -> RoundTripOK
              [] E.ev = "mean"  -> MeanOK
              [] E.ev = "num"   -> NumOK
              [] E.ev = "errline" -> ErrLineOK
+             [] E.ev = "reparse" -> ReparseOK
              [] OTHER          -> FALSE
 
 (* Every line is consumed; a line that the property does not allow is printed and counted, *)
